@@ -11,6 +11,7 @@ Float ranges and `multipleOf` are decided by the exact-arithmetic correspondence
 -/
 import LlgVerif.Proofs.IntRangeMain
 import LlgVerif.Proofs.FloatRange
+import LlgVerif.Proofs.FloatPos
 namespace LlgVerif
 open Rx
 
@@ -397,6 +398,67 @@ theorem c08_lexi_range (ld rd : List Nat) (li ri : Bool) (p : PR) (h : lexiRange
     (hne : ld ≠ rd) (hl : AllDig ld) (hr : AllDig rd) :
     DigLang p.rx (fun d => d ≠ [] ∧ LowerB li ld d ∧ UpperB ri d rd) :=
   lexiRange_lang ld rd li ri p h hne hl hr
+
+/-! ### decimal bounds: the assembled pattern of `rx_float_range` -/
+
+/-- **C08 (decimal bounds, `0 ≤ left < right`).**  The pattern accepts exactly the plain decimal
+literals `ip` / `ip.fd` (any number of fraction digits) whose value `v` satisfies
+`left ≤ v ≤ right` (strict where a flag is off): shorter spellings, trailing zeros and the bare
+integer are inside exactly when their value is. -/
+theorem c08_float_pos (l r : FB) (li ri : Bool) (p : PR) (h : floatPos l r li ri = .ok p)
+    (hl : AllDig l.fd) (hln : NTZ l.fd) (hr : AllDig r.fd) (hrn : NTZ r.fd)
+    (hlt : l.ip < r.ip ∨ (l.ip = r.ip ∧ fracLT l.fd r.fd)) :
+    LitLang p.rx (fun ip fd => geB li ip fd l.ip l.fd ∧ leB ri ip fd r.ip r.fd) :=
+  floatPos_lang l r li ri p h hl hln hr hrn hlt
+
+/-- **C08 (both bounds negative).**  `(-P)` with `P` the pattern of the mirrored positive range: the
+accepted strings are `-` followed by a literal whose magnitude lies between `|right|` and `|left|`. -/
+theorem c08_float_neg (l r : FB) (li ri : Bool) (p : PR)
+    (h : floatPos r.negate l.negate ri li = .ok p)
+    (hl : AllDig l.fd) (hln : NTZ l.fd) (hr : AllDig r.fd) (hrn : NTZ r.fd)
+    (hlt : r.ip < l.ip ∨ (r.ip = l.ip ∧ fracLT r.fd l.fd)) (w : List B) :
+    lang (cat minus p.rx) w ↔ ∃ ip fd, AllDig fd ∧ w = 45 :: (dec ip ++ fracBytes fd) ∧
+      geB ri ip fd r.ip r.fd ∧ leB li ip fd l.ip l.fd := by
+  rw [lang_minus]
+  have := floatPos_lang r.negate l.negate ri li p h hr hrn hl hln hlt
+  constructor
+  · rintro ⟨v, hw, hv⟩
+    obtain ⟨ip, fd, hfd, hvv, hp⟩ := (this v).mp hv
+    exact ⟨ip, fd, hfd, by rw [hw, hvv], hp⟩
+  · rintro ⟨ip, fd, hfd, hw, hp⟩
+    exact ⟨_, hw, (this _).mpr ⟨ip, fd, hfd, rfl, hp⟩⟩
+
+/-- **C08 (left < 0 < right).**  Negative part: `-` and a literal of magnitude in `(0, |left|]`;
+non-negative part: a literal with value in `[0, right]`. -/
+theorem c08_float_mixed (l r : FB) (li ri : Bool) (np pp : PR)
+    (hn : floatPos FB.zero l.negate false li = .ok np) (hp : floatPos FB.zero r true ri = .ok pp)
+    (hl : AllDig l.fd) (hln : NTZ l.fd) (hr : AllDig r.fd) (hrn : NTZ r.fd)
+    (hl0 : 0 < l.ip ∨ (0 = l.ip ∧ fracLT [] l.fd)) (hr0 : 0 < r.ip ∨ (0 = r.ip ∧ fracLT [] r.fd))
+    (w : List B) :
+    lang (altsRx [cat minus np.rx, pp.rx]) w ↔
+      (∃ ip fd, AllDig fd ∧ w = 45 :: (dec ip ++ fracBytes fd) ∧
+        (0 < ip ∨ (0 = ip ∧ fracLT [] fd)) ∧ leB li ip fd l.ip l.fd) ∨
+      (∃ ip fd, AllDig fd ∧ w = dec ip ++ fracBytes fd ∧ leB ri ip fd r.ip r.fd) := by
+  have h1 := floatPos_lang FB.zero l.negate false li np hn allDig_nil trivial hl hln hl0
+  have h2 := floatPos_lang FB.zero r true ri pp hp allDig_nil trivial hr hrn hr0
+  simp only [lang_altsRx, List.mem_cons, List.not_mem_nil, or_false]
+  constructor
+  · rintro ⟨q, hq | hq, hw⟩
+    · subst hq
+      obtain ⟨v, hwv, hv⟩ := (lang_minus _ _).mp hw
+      obtain ⟨ip, fd, hfd, hvv, hge, hle⟩ := (h1 v).mp hv
+      left
+      refine ⟨ip, fd, hfd, by rw [hwv, hvv], ?_, hle⟩
+      simpa [geB, LowerB, FB.zero] using hge
+    · subst hq
+      obtain ⟨ip, fd, hfd, hvv, _, hle⟩ := (h2 w).mp hw
+      exact Or.inr ⟨ip, fd, hfd, hvv, hle⟩
+  · rintro (⟨ip, fd, hfd, hw, hpos, hle⟩ | ⟨ip, fd, hfd, hw, hle⟩)
+    · refine ⟨_, Or.inl rfl, (lang_minus _ _).mpr ⟨_, hw, (h1 _).mpr ⟨ip, fd, hfd, rfl, ?_, hle⟩⟩⟩
+      simpa [geB, LowerB, FB.zero] using hpos
+    · refine ⟨_, Or.inr rfl, (h2 w).mpr ⟨ip, fd, hfd, hw, ?_, hle⟩⟩
+      simp only [geB, LowerB, FB.zero, ↓reduceIte, fracLE, and_true]
+      omega
 
 /-! non-vacuity: `maximum 0.15` (digits [1,5], inclusive): `0.1`, `0.15`, `0.150`, `0.09` are inside, `0.2` is not -/
 example : fracLE [1] [1, 5] ∧ fracLE [1, 5, 0] [1, 5] ∧ fracLE [0, 9] [1, 5] ∧ ¬ fracLE [2] [1, 5] := by
